@@ -300,6 +300,52 @@ fn check(ctx: &mut Ctx, s: &str, other_spelling: Option<&str>) {
     pct_route!("uri::Host", uri::HostBuf);
     pct_route!("uri::Query", uri::QueryBuf);
     pct_route!("uri::Fragment", uri::FragmentBuf);
+    // a value that borrows a PREFIX (or a suffix) of a longer text, compared with that text itself
+    // (same start or end address, different length)
+    {
+        let bounds: Vec<usize> = s.char_indices().map(|(i, _)| i).collect();
+        let step = (bounds.len() / 12).max(1);
+        for (j, k) in bounds.iter().enumerate() {
+            if *k == 0 || (j % step != 0 && j + 2 < bounds.len()) { continue; }
+            let (pre, suf) = (&s[..*k], &s[*k..]);
+            ctx.call("== str (aliasing)");
+            if let Ok(v) = iref::IriRef::new(pre) {
+                if *v == *s || *v == s || !(*v == *pre) || v.to_owned() == *s {
+                    ctx.fail("C14.eq-str", feats("IriRef", "== str (aliasing)"), format!("IriRef parsed from the first {} bytes of {} : comparison with the whole text / with its own text is not plain text equality", k, show(s.as_bytes())));
+                }
+            }
+            if let Ok(v) = iref::UriRef::new(pre) {
+                if *v == *s || *v == s || *v == *s.as_bytes() || *v == s.as_bytes() || !(*v == *pre) || !(*v == *pre.as_bytes()) {
+                    ctx.fail("C14.eq-str", feats("UriRef", "== str (aliasing)"), format!("UriRef parsed from the first {} bytes of {} : comparison with the whole text / with its own text is not plain text equality", k, show(s.as_bytes())));
+                }
+            }
+            if let Ok(v) = iref::IriRef::new(suf) {
+                if !suf.is_empty() && (*v == *s || !(*v == *suf)) {
+                    ctx.fail("C14.eq-str", feats("IriRef", "== str (aliasing)"), format!("IriRef parsed from the bytes {}.. of {} : comparison with the whole text / with its own text is not plain text equality", k, show(s.as_bytes())));
+                }
+            }
+            if let Ok(v) = iref::UriRef::new(suf) {
+                if !suf.is_empty() && (*v == *s || *v == *s.as_bytes() || !(*v == *suf)) {
+                    ctx.fail("C14.eq-str", feats("UriRef", "== str (aliasing)"), format!("UriRef parsed from the bytes {}.. of {} : comparison with the whole text / with its own text is not plain text equality", k, show(s.as_bytes())));
+                }
+            }
+            if let Ok(v) = iref::Iri::new(pre) {
+                if *v == *s || !(*v == *pre) {
+                    ctx.fail("C14.eq-str", feats("Iri", "== str (aliasing)"), format!("Iri parsed from the first {} bytes of {} : comparison with the whole text / with its own text is not plain text equality", k, show(s.as_bytes())));
+                }
+            }
+            if let Ok(v) = iref::Uri::new(pre) {
+                if *v == *s || *v == *s.as_bytes() || !(*v == *pre) {
+                    ctx.fail("C14.eq-str", feats("Uri", "== str (aliasing)"), format!("Uri parsed from the first {} bytes of {} : comparison with the whole text / with its own text is not plain text equality", k, show(s.as_bytes())));
+                }
+            }
+            if let Ok(v) = iri::Path::new(pre) {
+                if *v == s || !(*v == pre) {
+                    ctx.fail("C14.eq-str", feats("iri::Path", "== str (aliasing)"), format!("iri::Path parsed from the first {} bytes of {} : comparison with the whole text / with its own text is not plain text equality", k, show(s.as_bytes())));
+                }
+            }
+        }
+    }
     // an M-eq-equal but textually different value must compare UNEQUAL to the string
     if let Some(o) = other_spelling {
         if o != s {
